@@ -27,6 +27,10 @@ pub struct BlockS {
     /// for blocks without super(), includes and nested blocks
     #[serde(default)]
     pub empty: bool,
+    /// the block also writes the literal text `<&>` and the data `{{ hv }}` (rendered with a context
+    /// in which `hv` is a string with HTML-special characters)
+    #[serde(default)]
+    pub special: bool,
 }
 
 #[derive(Clone, Debug, Default, Serialize, Deserialize, PartialEq, Eq, Hash)]
@@ -82,6 +86,9 @@ impl TplS {
         }
         // the marker carries the tag too, so that a re-registered version has different block bodies
         out.push_str(&format!("{{% block {} %}}[{}@{}{}:", b.name, b.name, mark(&self.name), mark(&self.tag)));
+        if b.special {
+            out.push_str("<&>{{ hv }}");
+        }
         if b.calls_super {
             if b.call_before_super {
                 out.push_str("{% for i in range(end=2) %}{{ i }}{% endfor %}");
